@@ -24,7 +24,7 @@ SKEL = ["K", "KA", "K A", "K/KK", "K/KK/KKK", "K/KK/KKK/K4", "K/sib", "S", "S/T"
 
 
 def budget(tier):
-    return {"cases": 2400, "seconds": 55} if tier == "quick" else {"cases": 80000, "seconds": 600}
+    return {"cases": 2200, "seconds": 55} if tier == "quick" else {"cases": 80000, "seconds": 600}
 
 
 def _parent_hist(h, hists):
